@@ -177,6 +177,39 @@ def _writes(meth, field):
     return struct, values
 
 
+def _append_at_end(meth, one, two, w_one):
+    '''self.<one>.append(v) shifts no position: the only update the index
+    needs is `self.<two>[key].append(pos)` with pos the length of the
+    sequence before the append (or the length minus one after it).  True
+    when that is what the method does, None when the value write on the
+    index is there but its position is not read, False otherwise.'''
+    if not all(isinstance(w, ast.Call) and call_name(w) == 'append' and
+               len(w.args) == 1 for w in w_one):
+        return False
+    _, vals = _writes(meth, two)
+    vals = [v for v in vals if call_name(v) == 'append' and len(v.args) == 1]
+    if len(w_one) != 1 or len(vals) != 1:
+        return False if not vals else None
+    pos = vals[0].args[0]
+    lens = (f'len(self.{one})', 'len(self)')
+    seq_line = w_one[0].lineno
+    if isinstance(pos, ast.Name):
+        defs = [n for n in walk_local(meth.node) if isinstance(
+            n, ast.Assign) and len(n.targets) == 1 and txt(
+                n.targets[0]) == pos.id]
+        if len(defs) == 1 and txt(defs[0].value) in lens and \
+                defs[0].lineno < seq_line:
+            return True
+        return None
+    if txt(pos) in lens and vals[0].lineno < seq_line:
+        return True
+    if isinstance(pos, ast.BinOp) and isinstance(pos.op, ast.Sub) and txt(
+            pos.left) in lens and txt(pos.right) == '1' and \
+            vals[0].lineno > seq_line:
+        return True
+    return None
+
+
 def check_pair(ctx):
     program = ctx.program
     pairs = ((DG, '_nodes', '_edges'), (RL, '_seq', '_index'))
@@ -211,6 +244,8 @@ def check_pair(ctx):
             # a method that delegates the whole update to another method of
             # the class is fine (append -> insert)
             ok = bool(w_one) and bool(w_two)
+            if w_one and not w_two:
+                ok = _append_at_end(meth, one, two, w_one)
             missing = two if w_one and not w_two else one
             ctx.decide('PAIR', meth,
                        f'{klass.name}.{meth.name}: self.{one} and '
